@@ -46,8 +46,13 @@ def triggers : Option Status → Bool
   | some .fail | some .uxsuccess => true
   | _ => false
 
+/-- the value of the caller's object number `k` (as given in the input) -/
+def objValue (objs : List TagObj) : Option Nat → Option (List Nat)
+  | none => none
+  | some k => some ((objs[k]?.map (·.elems)).getD [])
+
 /-- the event a call carries, with the value of its tags argument -/
-def valueOf (objs : List TagObj) (e : EventOf ObjId) : Event := snapEvent e (deref objs e.tags)
+def valueOf (objs : List TagObj) (e : EventOf Nat) : Event := snapEvent e (objValue objs e.tags)
 
 /-- what is compared of a leaf's log for `forward`: the call kind and the ten fields as received -/
 inductive Core | start | stop | status (e : Event) | fired (call : Nat)
@@ -81,7 +86,7 @@ def cFailFast (i : Input) (t : Trace) : Bool :=
       p.1 != .failfast || log.map core == expectFailFast 0 i.calls) (paths i.tree) t.leaves
 /-- the caller's argument objects are never modified -/
 def cCaller (i : Input) (t : Trace) : Bool :=
-  t.caller == (statusEvents i.calls).map (fun e => (deref i.objs e.tags, deref i.objs e.tags))
+  t.caller == (statusEvents i.calls).map (fun e => (objValue i.objs e.tags, objValue i.objs e.tags))
     && t.callerEnd == i.objs.map (·.elems)
 /-- what a sink holds when the run is over is what it received (no later write through an alias) -/
 def cNoLateWrite (_ : Input) (t : Trace) : Bool :=
